@@ -411,6 +411,11 @@ Exec(n, s, st) ==
               THEN AssignAll(n.lhs, vals[1].l, 1, Min(Len(n.lhs), Len(vals[1].l)), s, r.st)
               ELSE IF Len(vals) # Len(n.lhs) THEN Norm(MarkOpen(r.st), OpenV)
               ELSE AssignAll(n.lhs, vals, 1, Len(vals), s, r.st)
+    [] n.k = "letmi" ->    \* v, ok = m[k] : the index expression is evaluated ONCE; (value, true), or (nil, false) when it yields nil
+         LET r == EvalE(n.rhs, s, st) IN
+         IF r.o # "norm" THEN r
+         ELSE LET vals == IF r.v.t = "nil" THEN <<NilV, BoolV(FALSE)>> ELSE <<r.v, BoolV(TRUE)>> IN
+              AssignAll(n.lhs, vals, 1, 2, s, r.st)
     [] n.k = "var" ->
          LET r == EvalSeq(n.rhs, 1, s, st, <<>>) IN
          IF r.o # "norm" THEN r
